@@ -1,8 +1,9 @@
-"""Fail-closed translator: straight-line C arithmetic (the bodies in dadi/DFE/PDFs.c) -> Coq terms over R.
+"""Fail-closed translator: straight-line C function *bodies* (dadi/DFE/PDFs.c) -> Coq terms over R.
 
-Same structure as pyexpr.py: a tiny recursive-descent parser for the C subset that occurs, symbolic execution
-of the function body with single-assignment temporaries inlined, and `Refuse` for anything outside the
-recognised shape (the caller turns a refusal into a broken obligation).
+Companion of cexpr.py (single `return <expr>;` expressions of the integration kernels) and pyexpr.py, with the same
+structure: a tiny recursive-descent parser for the C subset that occurs, symbolic execution of the function body with
+single-assignment temporaries inlined, and `Refuse` for anything outside the recognised shape (the caller turns a
+refusal into a broken obligation).
 
 Recognised body:
     declarations                      double a,b;  double *p, *q;  int ii, jj;
